@@ -1,4 +1,5 @@
 import Proofs.StdNoPanicLemmas
+import Proofs.ArrNoPanic
 /-!
 # The standard value layer never panics (the hypothesis of `run_noPanic`, discharged)
 
@@ -10,7 +11,7 @@ The `.panic` sites of the model and why none is reachable:
 
 * `Compare.lean` (17 sites: the `reflect` accessors and Go's `==` on uncomparable types) — by the
   theorems of `Proofs/CompareLemmas.lean` / `C09.lean` (`rel_no_panic`, `Cmp.equal_noPanic`);
-* `Num.badArgs` (a body applied to arguments of the wrong Go type) — `values.Call` converts every
+* `Num.badArgs`, `ArrF.badArgs` (a body applied to arguments of the wrong Go type) — `values.Call` converts every
   argument to the parameter type of the registered signature first (`convertArgs_ok`), and each
   body's pattern is exactly its signature (`ImplsNoPanic`: a body is only required to be panic-free
   on arguments that are well typed for the signature registered under its name);
@@ -67,12 +68,14 @@ example : ArgsOK [.val .f64, .fn .int] [.val (.flt .f64 1), .fn (some (convert (
 
 /-- the whole table of `Liquid/Std.lean` -/
 theorem stdFilterImpls_noPanic : ImplsNoPanic stdFilterImpls :=
-  numImpls_noPanic.append strImpls_noPanic
+  (numImpls_noPanic.append strImpls_noPanic).append arrImpls_noPanic
 
--- the table is not vacuous: these calls reach a body (`"1.5" | round: 1`, `5 | upcase`)
+-- the table is not vacuous: these calls reach a body (`"1.5" | round: 1`, `5 | upcase`, `(1..3) | join: 0`)
 example : (applyFilter (lookupImpl stdFilterImpls) (Num.bn "round") (.str [49, 46, 53]) [.int .int 1]).isOk = true := by
   decide +kernel
 example : (applyFilter (lookupImpl stdFilterImpls) (Num.bn "upcase") (.int .int 5) []).isOk = true := by
+  decide +kernel
+example : (applyFilter (lookupImpl stdFilterImpls) (Num.bn "join") (.range 1 3) [.int .int 0]).isOk = true := by
   decide +kernel
 
 /-! ## Assembly -/
